@@ -277,3 +277,98 @@ func TestReplay(t *testing.T) { vf.ReplayEnv(t) }
 
 // native fuzz targets (thorough tier): the fuzzer mutates the byte stream that rapid decodes into generator choices
 func FuzzMUS(f *testing.F) { vf.FuzzNamed(f, "C07", "mus") }
+
+// ---- extraction with restarts inside: pigeonhole core plus padding, the MUS is known by construction -----
+
+// PHPCase: the pigeonhole formula with Holes holes (minimally unsatisfiable: it is its own only MUS) shuffled among
+// padding clauses that each hold a positive literal of a fresh variable (so that no padding clause belongs to any
+// MUS). Every method must return exactly the pigeonhole clauses. The Solve calls made on the way take hundreds of
+// conflicts each, under assumptions for the deletion-based methods: restarts and clause-database reductions happen.
+type PHPCase struct {
+	Holes  int     `json:"holes"`
+	Pad    [][]int `json:"pad"`   // padding clauses: literals over the pigeonhole variables (given as 1..n, sign kept) and fresh ones (n+1..)
+	Order  []int   `json:"order"` // positions: a permutation seed (cyclic) used to interleave the clauses
+	Method string  `json:"method"`
+}
+
+func checkPHP(c PHPCase, o *vf.Obs) error {
+	gs.Arm(0, 400_000_000)
+	defer gs.Arm(0, 0)
+	holes, pigeons := c.Holes, c.Holes+1
+	n := pigeons * holes
+	v := func(p, h int) int { return p*holes + h + 1 }
+	var core [][]int
+	for p := 0; p < pigeons; p++ {
+		var cl []int
+		for h := 0; h < holes; h++ {
+			cl = append(cl, v(p, h))
+		}
+		core = append(core, cl)
+	}
+	for h := 0; h < holes; h++ {
+		for p := 0; p < pigeons; p++ {
+			for q := p + 1; q < pigeons; q++ {
+				core = append(core, []int{-v(p, h), -v(q, h)})
+			}
+		}
+	}
+	all := append(oracle.CloneCNF(core), oracle.CloneCNF(c.Pad)...)
+	// interleave deterministically from Order
+	for i := len(all) - 1; i > 0 && len(c.Order) > 0; i-- {
+		j := (c.Order[i%len(c.Order)] + i*7) % (i + 1)
+		all[i], all[j] = all[j], all[i]
+	}
+	nv := oracle.MaxVar(all)
+	o.Class("method-" + c.Method)
+	o.Class(fmt.Sprintf("holes-%d", holes))
+	pb, err := explain.ParseCNF(strings.NewReader(gs.Dimacs(nv, all)))
+	if err != nil {
+		return fmt.Errorf("explain.ParseCNF rejects a well-formed text: %v", err)
+	}
+	before := oracle.CloneCNF(pb.Clauses)
+	mus, err := call(pb, c.Method)
+	if !reflect.DeepEqual(pb.Clauses, before) {
+		return fmt.Errorf("%s changed the caller's problem", c.Method)
+	}
+	if err != nil {
+		return fmt.Errorf("%s of an unsatisfiable problem failed: %v", c.Method, err)
+	}
+	o.Nontrivial()
+	if !oracle.SubMultiset(mus.Clauses, all) {
+		return fmt.Errorf("%s: the result is not a sub-multiset of the input", c.Method)
+	}
+	if !oracle.SubMultiset(core, mus.Clauses) {
+		return fmt.Errorf("%s: the result (%d clauses) lacks a clause of the pigeonhole formula with %d holes, which is minimally unsatisfiable: the result is satisfiable", c.Method, len(mus.Clauses), holes)
+	}
+	if len(mus.Clauses) != len(core) {
+		for _, cl := range mus.Clauses {
+			if oracle.MaxVar([][]int{cl}) > n {
+				return fmt.Errorf("%s: the result holds %d clauses, among them the padding clause %v, which can be removed: the %d pigeonhole clauses are the only minimal unsatisfiable subset", c.Method, len(mus.Clauses), cl, len(core))
+			}
+		}
+		return fmt.Errorf("%s: the result holds %d clauses, the only MUS has %d", c.Method, len(mus.Clauses), len(core))
+	}
+	return nil
+}
+
+func genPHP(t *rapid.T) PHPCase {
+	c := PHPCase{Holes: rapid.SampledFrom([]int{4, 5, 6, 6}).Draw(t, "holes"), Method: rapid.SampledFrom([]string{"MUS", "MUSDeletion", "MUSDeletion", "MUSMaxSat", "MUSInsertion"}).Draw(t, "method")}
+	n := (c.Holes + 1) * c.Holes
+	fresh := rapid.IntRange(1, 4).Draw(t, "fresh")
+	for i, k := 0, rapid.IntRange(1, 12).Draw(t, "pad"); i < k; i++ {
+		cl := []int{n + 1 + rapid.IntRange(0, fresh-1).Draw(t, "f")}
+		for _, l := range gen.DistinctLits(t, n, rapid.IntRange(0, 2).Draw(t, "plen"), "p") {
+			cl = append(cl, l)
+		}
+		c.Pad = append(c.Pad, cl)
+	}
+	for i := 0; i < 16; i++ {
+		c.Order = append(c.Order, rapid.IntRange(0, 1000).Draw(t, "o"))
+	}
+	return c
+}
+
+func init() {
+	vf.Register(vf.Sub[PHPCase]{Name: "pigeonhole-plus-padding", Quick: 10, Thorough: 120, Gen: genPHP, Check: checkPHP, Floor: 0.9,
+		Rule: "the pigeonhole formula with 4..6 holes (its own only MUS) shuffled among 1..12 padding clauses that each hold a positive literal of a fresh variable (no padding clause is in any MUS); methods MUS|MUSDeletion|MUSMaxSat|MUSInsertion; the result must be exactly the pigeonhole clauses and the receiver must be unchanged; the Solve calls made on the way take hundreds of conflicts (restarts, reductions), under assumptions for the deletion-based methods"})
+}
